@@ -706,6 +706,11 @@ impl KrpcSocket {
     pub fn verif_set_next_tid(&mut self, tid: u32) {
         self.inflight_requests.next_tid = tid;
     }
+    /// `recv_from` with the crate-private `Message` wrapped.
+    pub fn verif_recv(&mut self) -> Option<(crate::verif::Msg, SocketAddrV4)> {
+        self.recv_from()
+            .map(|(message, from)| (crate::verif::Msg(message), from))
+    }
     pub fn verif_server_mode(&self) -> bool {
         self.server_mode
     }
